@@ -84,19 +84,29 @@ def run_property(pid, tier, repo, seed, overrides=None, quiet=False, unit_filter
     spec = reg.PROPS[pid]
     from pyvc import runner
     runner.UNITS.clear()
-    for m in spec['modules']:
+    # a composite property is decided by its own units plus those of the properties it is a lemma over (registry `deps`)
+    want = {pid}
+    mods = list(spec['modules'])
+    todo = [pid]
+    while todo:
+        for d in reg.PROPS.get(todo.pop(), {}).get('deps', []):
+            if d not in want:
+                want.add(d)
+                todo.append(d)
+                mods += [m for m in reg.PROPS[d]['modules'] if m not in mods]
+    for m in mods:
         if m in sys.modules:
             importlib.reload(sys.modules[m])
         else:
             importlib.import_module(m)
-    units = [u for u in runner.UNITS if pid in u.props and (tier == 'thorough' or not u.thorough_only)]
+    units = [u for u in runner.UNITS if want & set(u.props) and (tier == 'thorough' or not u.thorough_only)]
     if unit_filter:
         units = [u for u in units if unit_filter in u.name]
     jobs = []
     timeout_ms = 60000 if tier == 'quick' else 180000
     for u in units:
         for dm in u.debug_modes:
-            jobs.append((spec['modules'], u.name, dm, repo, overrides, timeout_ms, tier == 'thorough', seed % 1000))
+            jobs.append((mods, u.name, dm, repo, overrides, timeout_ms, tier == 'thorough', seed % 1000))
     nproc = min(16, max(1, len(jobs)))
     wall = 400 if tier == 'quick' else 1800
     if nproc == 1 and not os.environ.get('PYVC_FORCE_POOL'):
